@@ -32,6 +32,8 @@ pub struct FsPlanFile {
 pub struct ScenarioFile {
     #[serde(default)]
     pub entropy: u64,
+    #[serde(default)]
+    pub table_dims: Option<(usize, usize)>,
     pub sessions: Vec<Vec<StmtFile>>,
     /// path -> hex bytes
     pub disk: BTreeMap<String, String>,
@@ -159,6 +161,7 @@ pub fn policy_from_string(s: &str) -> Policy {
 pub fn scenario_to_file(sc: &Scenario) -> ScenarioFile {
     ScenarioFile {
         entropy: sc.entropy,
+        table_dims: sc.table_dims,
         sessions: sc
             .sessions
             .iter()
@@ -210,6 +213,7 @@ pub fn scenario_from_file(f: &ScenarioFile) -> Scenario {
     };
     Scenario {
         entropy: f.entropy,
+        table_dims: f.table_dims,
         sessions: f
             .sessions
             .iter()
